@@ -31,6 +31,16 @@ func (c *fakeConn) Read(b []byte) (int, error) {
 	}
 	return 0, io.EOF
 }
+// VerifContent: the bytes a stream reader will eventually get (TCP delivers the concatenation of
+// the segments, however they were cut).
+func (c *fakeConn) VerifContent() []byte {
+	var out []byte
+	for i := c.pos; i < len(c.input); i++ {
+		out = append(out, c.input[i]...)
+	}
+	return out
+}
+
 func (c *fakeConn) Write(b []byte) (int, error) {
 	c.written = append(c.written, b...)
 	c.writes++
